@@ -50,26 +50,26 @@ func init() {
 }
 
 type c14node struct {
-	st      *c14state
-	idx     int
-	mu      sync.Mutex
-	gen     map[int]int    // statement -> current generation
-	prepN   map[string]int // "ks|stmt" -> PREPARE count
-	failN   map[int]int    // statement -> remaining PREPAREs to fail
-	dropN   map[int]int    // statement -> remaining PREPAREs answered by dropping the connection
-	execN   map[int]int
+	st          *c14state
+	idx         int
+	mu          sync.Mutex
+	gen         map[int]int    // statement -> current generation
+	prepN       map[string]int // "ks|stmt" -> PREPARE count
+	failN       map[int]int    // statement -> remaining PREPAREs to fail
+	dropN       map[int]int    // statement -> remaining PREPAREs answered by dropping the connection
+	execN       map[int]int
 	forgetAfter map[int]int // statement -> forget the id after this many EXECUTEs (once)
-	delay   time.Duration
-	scripted map[int]bool
-	hasDrop  bool
+	delay       time.Duration
+	scripted    map[int]bool
+	hasDrop     bool
 }
 
 type c14state struct {
-	mu       sync.Mutex
-	problems [][2]string
-	execs    int64
-	entries  int64
-	unprep   int64
+	mu         sync.Mutex
+	problems   [][2]string
+	execs      int64
+	entries    int64
+	unprep     int64
 	newGenExec int64
 }
 
@@ -158,7 +158,7 @@ func (n *c14node) handler(sc *fakenode.ServerConn, req *fakenode.Req) {
 			sc.Close()
 		default:
 			ps := &cqlref.PreparedSpec{ID: n.id(sc.Keyspace, j, gen),
-				Bind: cqlref.Metadata{Global: true, ColCount: 2, Columns: []cqlref.Column{{Keyspace: "k", Table: fmt.Sprintf("t%d", j), Name: "tag", Type: &cqlref.Type{ID: cqlref.TText}}, {Keyspace: "k", Table: fmt.Sprintf("t%d", j), Name: "v", Type: &cqlref.Type{ID: cqlref.TInt}}}},
+				Bind:   cqlref.Metadata{Global: true, ColCount: 2, Columns: []cqlref.Column{{Keyspace: "k", Table: fmt.Sprintf("t%d", j), Name: "tag", Type: &cqlref.Type{ID: cqlref.TText}}, {Keyspace: "k", Table: fmt.Sprintf("t%d", j), Name: "v", Type: &cqlref.Type{ID: cqlref.TInt}}}},
 				Result: cqlref.Metadata{Global: true, ColCount: 0}}
 			sc.Reply(req, cqlref.OpResult, nil, cqlref.BodyPrepared(sc.Version, ps))
 		}
@@ -405,4 +405,3 @@ func c14case(c *runner.Ctx, i int) {
 		c.Sample(map[string]interface{}{"scenario": key, "prepare_counts": pc, "executes": st.execs, "unprepared_answers": st.unprep, "cache_len": cacheLen})
 	}
 }
-
